@@ -93,6 +93,21 @@ def run(tier, seed):
         h, meta = gen.random_hrg(rng)
         nts = list(h.nonterminals())
         num = {x: j for j, x in enumerate(nts)}
+        if i % 2 == 1:
+            # history: a nonterminal edge that was added to a right-hand side and removed again (as inlining a
+            # nonterminal with replace_edge does) leaves its label in the rhs graph's label table; it is no longer
+            # "on the right-hand side" and must not give an edge of the nonterminal graph
+            import fggs
+            for r in h.all_rules():
+                if rng.random() < 0.6:
+                    y = rng.choice(nts); nodes = []
+                    for nl in y.type:
+                        cands = [v for v in r.rhs.nodes() if v.label == nl]
+                        if not cands: nodes = None; break
+                        nodes.append(rng.choice(cands))
+                    if nodes is None: continue
+                    e = fggs.Edge(y, nodes); r.rhs.add_edge(e); r.rhs.remove_edge(e)
+                    meta.setdefault("features", []).append("history:rhs edge added and removed")
         tnum = {}
         def lab(l):
             if l in num: return num[l]
@@ -114,7 +129,7 @@ def run(tier, seed):
                                     call="fggs.utils.nonterminal_graph(hrg)"))
     hd = len({repr(v[1]) for v in hvals if len(v[1]) >= 2})
     cov = dict(evaluations=len(vals) + len(hvals), distinct_nontrivial=distinct + hd,
-               rule="scc: every labelled digraph with <= %d vertices (self-loops, canonical insertion order; exhaustive: %d graphs) + random digraphs with shuffled vertex and successor insertion orders and 4 key types; non-trivial = >= 3 vertices and >= 1 edge, distinct by adjacency structure. nonterminal_graph: random HRGs (gen.random_hrg); non-trivial = >= 2 rules" % (exh, n_exh),
+               rule="scc: every labelled digraph with <= %d vertices (self-loops, canonical insertion order; exhaustive: %d graphs) + random digraphs with shuffled vertex and successor insertion orders and 4 key types; non-trivial = >= 3 vertices and >= 1 edge, distinct by adjacency structure. nonterminal_graph: random HRGs (gen.random_hrg), every second one with a history (a nonterminal edge added to a right-hand side and removed again, which leaves its label in that graph's label table); non-trivial = >= 2 rules" % (exh, n_exh),
                exhaustive_part="all digraphs on <= %d vertices" % exh,
                samples=[dict(graph=vals[n_exh // 2][0], impl_components=vals[n_exh // 2][1]),
                         dict(graph=vals[-1][0], impl_components=vals[-1][1]),
